@@ -27,7 +27,7 @@ func devMain(args []string) int {
 		show := fs.Int("show", 5, "")
 		fs.Parse(args[1:])
 		ft, ok := fam.Presets[*feat]
-		if !ok && *feat != "lib" && *feat != "chain" && *feat != "shadow" && *feat != "groups" && *feat != "keys" && *feat != "softnest" && *feat != "reenter" {
+		if !ok && *feat != "lib" && *feat != "chain" && *feat != "shadow" && *feat != "groups" && *feat != "keys" && *feat != "softnest" && *feat != "reenter" && *feat != "libgroups" {
 			fmt.Println("unknown preset")
 			return 2
 		}
@@ -45,6 +45,9 @@ func devMain(args []string) int {
 			cats = fam.Sample(fam.Keys([]cat.Opts{{Recover: true}}, false), *seed, *n)
 		case "groups":
 			cats = fam.Sample(fam.Groups([]cat.Opts{{Recover: true}}, false), *seed, *n)
+		}
+		if *feat == "libgroups" {
+			cats = fam.LibGroups(*seed, *n, []cat.Opts{{Recover: true}}, false)
 		}
 		if *feat == "lib" {
 			cats = fam.LibFamily(*seed, *n, []cat.Opts{{Recover: true}, {Recover: false}}, true)
